@@ -91,6 +91,9 @@ def build(cfg, log_starts, log_aux, kseed):
         "Bio[Borda]": lambda: BioConsert([rs(BordaCount())]),
         "Bio[Copeland,KwikSort]": lambda: BioConsert([rs(CopelandMethod()), rs(KwikSortRandom())]),
         "Bio[PickAPerm]": lambda: BioConsert([rs(PickAPerm())]),
+        "Bio[BioCo]": lambda: BioConsert([rs(BioCo())]),                     # a local search started from a local search
+        "Bio{Copeland}": lambda: BioConsert({rs(CopelandMethod())}),        # the starting algorithms given as a set
+        "BioValues[Borda]": lambda: BioConsert({"first": rs(BordaCount())}.values()),      # ... as a dictionary view
         "Bio[Borda,BordaBid]": lambda: BioConsert([rs(BordaCount()), rs(BordaCount(use_bucket_id=True))]),
         "Bio[PickAPerm,Copeland]": lambda: BioConsert([rs(PickAPerm()), rs(CopelandMethod())]),
         "Bio[Borda,Copeland,KwikSort]": lambda: BioConsert([rs(BordaCount()), rs(CopelandMethod()),
@@ -144,7 +147,8 @@ ALL_CONFIGS = ["Borda", "BordaBid", "Copeland", "PickAPerm", "KwikSort", "BioCon
 
 STARTERS = {"BioCo": ["Borda"], "Bio[Borda]": ["Borda"], "Bio[Copeland,KwikSort]": ["Copeland"],
             "Bio[PickAPerm]": ["PickAPerm"], "Bio[PickAPerm,Copeland]": ["PickAPerm", "Copeland"],
-            "Bio[Borda,BordaBid]": ["Borda", "BordaBid"], "Bio[Borda,Copeland,KwikSort]": ["Borda", "Copeland"]}
+            "Bio[Borda,BordaBid]": ["Borda", "BordaBid"], "Bio[Borda,Copeland,KwikSort]": ["Borda", "Copeland"],
+            "Bio[BioCo]": ["BioCo"], "Bio{Copeland}": ["Copeland"], "BioValues[Borda]": ["Borda"]}
 
 
 def _independent_starts(cfg, ds, ss, am):
